@@ -498,6 +498,7 @@ class Aut:
         self.groupdict = groupdict
         self.mid_start = mid_start
         self.pattern = pattern
+        self.prefix_lang = False     # True: the language is "strings on which a prefix match succeeds"
         self._closure_memo: dict = {}
         self._obl_init_memo: dict = {}
         self._obl_step_memo: dict = {}
@@ -638,7 +639,7 @@ class Aut:
         return frozenset(out)
 
     def step(self, S, a, prefix_mode=False):
-        return self.step_set(S, a, self.final, prefix_mode)
+        return self.step_set(S, a, self.final, prefix_mode or self.prefix_lang)
 
     def accepts_at_end(self, S):
         """Full-match acceptance: a configuration at the final state whose obligations all resolve at EOF."""
